@@ -220,10 +220,10 @@ func (s *pattern) Driver(ctx context.Context, tx graph.Transaction, segment *gra
 		if tag.patternIdx < len(s.expansions) {
 			nextExpansion := s.expansions[tag.patternIdx]
 
-			// Expand the next segments
+			// Expand the next segments. The fetch direction is the reverse intent of the next expansion's direction
 			if criteria, err := nextExpansion.PrepareCriteria(segment); err != nil {
 				return nil, err
-			} else if err := tx.Relationships().Filter(criteria).FetchDirection(fetchDirection, fetchFunc); err != nil {
+			} else if err := tx.Relationships().Filter(criteria).FetchDirection(nextExpansion.direction.Reverse(), fetchFunc); err != nil {
 				return nil, err
 			}
 
